@@ -4,6 +4,7 @@ import (
 	"bytes"
 	"compress/gzip"
 	"crypto/rand"
+	"crypto/sha256"
 	"encoding/base64"
 	"encoding/hex"
 	"fmt"
@@ -142,8 +143,13 @@ func NewSessionManager(encryptionKey string, forceHTTPS bool, logger *Logger) (*
 		return nil, fmt.Errorf("encryption key must be at least %d bytes long", minEncryptionKeyLength)
 	}
 
+	// The configured key authenticates the cookies (HMAC); a second key derived
+	// from it encrypts them (AES-256), so cookie values disclose neither tokens
+	// nor e-mail nor login-flow values to anyone who does not hold the key.
+	blockKey := sha256.Sum256([]byte("traefikoidc session cookie encryption|" + encryptionKey))
+
 	sm := &SessionManager{
-		store:      sessions.NewCookieStore([]byte(encryptionKey)),
+		store:      sessions.NewCookieStore([]byte(encryptionKey), blockKey[:]),
 		forceHTTPS: forceHTTPS,
 		logger:     logger,
 	}
